@@ -178,7 +178,7 @@ func c09Program(seed int64, n int, withReopen bool) (ops []c09Op, startProto boo
 		case r < 56:
 			ops = append(ops, c09Op{Kind: "set", Key: stableKeys[rng.Intn(len(stableKeys))], Val: randBytes(rng, rng.Intn(20)+8)})
 		case r < 62:
-			ops = append(ops, c09Op{Kind: "setu", Key: append([]byte("u-"), stableKeys[rng.Intn(len(stableKeys))]...), U: rng.Uint64()})
+			ops = append(ops, c09Op{Kind: "setu", Key: append([]byte("u-"), stableKeys[rng.Intn(len(stableKeys))]...), U: c09U(rng.Uint64())})
 		case r < 68:
 			ops = append(ops, c09Op{Kind: "get", Key: stableKeys[rng.Intn(len(stableKeys))]})
 		case r < 72:
@@ -203,6 +203,18 @@ func c09Program(seed int64, n int, withReopen bool) (ops []c09Op, startProto boo
 		}
 	}
 	return ops, startProto
+}
+
+// c09U maps a random word onto the values a stable store sees: mostly small numbers that repeat
+// (terms), zero (a value like any other: "no vote yet", a term written back), and big ones.
+func c09U(u uint64) uint64 {
+	switch u % 5 {
+	case 0:
+		return 0
+	case 1, 2:
+		return (u >> 8) % 4
+	}
+	return u
 }
 
 // c09LongLog builds a program that appends 150-450 consecutive entries and then
